@@ -74,6 +74,9 @@ type SIte struct{ C, T, E Sum }
 // SNone marks "control falls off the end without returning".
 type SNone struct{}
 
+// SLen is len(M) of a table.
+type SLen struct{ M Sum }
+
 func (SConst) sum()  {}
 func (SParam) sum()  {}
 func (STable) sum()  {}
@@ -86,6 +89,7 @@ func (SNot) sum()    {}
 func (SBin) sum()    {}
 func (SIte) sum()    {}
 func (SNone) sum()   {}
+func (SLen) sum()    {}
 
 type sumErr struct {
 	msg string
@@ -708,6 +712,14 @@ func (tr *translator) expr(x ast.Expr, e env) Sum {
 		if tv, ok := tr.info.Types[n.Fun]; ok && tv.IsType() {
 			tr.fail(n.Pos(), "conversion is outside the fragment")
 		}
+		// len(m) of a map
+		if id, ok := ast.Unparen(n.Fun).(*ast.Ident); ok && len(n.Args) == 1 {
+			if bi, ok := tr.info.Uses[id].(*types.Builtin); ok && bi.Name() == "len" {
+				if _, isMap := tr.info.TypeOf(n.Args[0]).Underlying().(*types.Map); isMap {
+					return SLen{M: tr.expr(n.Args[0], e)}
+				}
+			}
+		}
 		callee, _ := typeutil.Callee(tr.info, n).(*types.Func)
 		if callee != nil && callee.FullName() == "strings.EqualFold" && len(n.Args) == 2 {
 			return SCmp{Fold: true, A: tr.expr(n.Args[0], e), B: tr.expr(n.Args[1], e)}
@@ -856,6 +868,16 @@ func (f *Facts) eval(s Sum, b map[*types.Var]Value) Value {
 			}
 		}
 		return f.Eval(x.Fn, args...)
+	case SLen:
+		t, ok, bad := f.evalTable(x.M, b)
+		if !ok {
+			return bad
+		}
+		n := 0
+		if t != nil {
+			n = len(t.Entries)
+		}
+		return Value{Kind: VConst, C: constant.MakeInt64(int64(n)), Type: types.Typ[types.Int]}
 	case SCmp:
 		av, bv := f.eval(x.A, b), f.eval(x.B, b)
 		for _, v := range []Value{av, bv} {
@@ -965,6 +987,8 @@ func (f *Facts) TablesRead(fn *types.Func) map[*Table]bool {
 			for _, a := range x.Args {
 				walkSum(a)
 			}
+		case SLen:
+			walkSum(x.M)
 		case SCmp:
 			walkSum(x.A)
 			walkSum(x.B)
@@ -1023,6 +1047,8 @@ func (f *Facts) StringConsts(fn *types.Func) map[string]bool {
 			for _, a := range x.Args {
 				walkSum(a)
 			}
+		case SLen:
+			walkSum(x.M)
 		case SCmp:
 			walkSum(x.A)
 			walkSum(x.B)
